@@ -46,6 +46,28 @@ def main():
             m = importlib.import_module("task_m")
             s = pytask.build(tasks=[m.task_z], paths=[d])
             res = observe(s)
+        elif kind in ("gen_collect_error", "gen_collect_ok"):
+            bad = kind == "gen_collect_error"
+            (d / "in").mkdir()
+            (d / "in" / "x.txt").write_text("x")
+            (d / "task_g.py").write_text(textwrap.dedent(f"""
+                from pathlib import Path
+                from typing import Annotated
+                from pytask import Product, task, DirectoryNode
+                ROOT = Path(__file__).parent
+                @task(is_generator=True)
+                def task_gen(files: Annotated[list[Path], DirectoryNode(root_dir=ROOT / "in", pattern="*.txt")]):
+                    for f in files:
+                        @task(id=f.stem)
+                        def child(src: Path = f, out: Annotated[Path, Product] = ROOT / (f.stem + ".out")):
+                            out.write_text(src.read_text())
+                    # a second task; in the faulty variant the value of one parameter is given twice (default and kwargs)
+                    @task(id="second")
+                    def child(src: Path = ROOT / "in" / "x.txt", out: Annotated[Path, Product{', 42' if bad else ''}] = ROOT / "second.out"{', both: Annotated[Path, Product, Product] = 3' if bad else ''}):
+                        out.write_text(src.read_text())
+            """))
+            s = pytask.build(paths=[d])
+            res = observe(s, {"second_out": (d / "second.out").exists(), "x_out": (d / "x.out").exists()})
         elif kind in ("pynode_unset", "pynode_set", "pynode_unset_hash"):
             node = PythonNode(name="handover", hash=(kind == "pynode_unset_hash"))
             def task_make(n: Annotated[PythonNode, node, Product], flag: bool = (kind == "pynode_set")):
